@@ -18,7 +18,7 @@ pub static DEF: PropDef = PropDef {
     level: "exploration",
     total: |t| t.pick(1280, 40000),
     run,
-    rule: "(a) generated description trees (1..3 top-level Networks sections with 1..4 networks of 1..4 ip/range/arbitrary-key entries, 1..6 machines with any options, 1..3 networks, 0..4 protocols and 1..4 applications carrying 0..6 arguments whose values are arbitrary printable ASCII without quote, backslash, closing bracket and 4-space runs, empty values included) are printed by the harness's own renderer in tab, 4-space and CRLF variants with the three machine sections in any order and optional Template lines, parsed by core_parser and compared with the tree; structurally broken renderings (one line indented one level too deep or too shallow, unknown section keyword, a required machine section missing, duplicate network id, duplicate argument) must yield Err with a non-empty message, never Ok and never a panic. (b) valid scenario descriptions (senders with counts 1..5 -> capture by count or by message, sender -> forward -> capture, ping_pong pair, several captures sharing a factory; receivers addressed by machine name or by address; optional ARP protocol; auto-protocol on no, every or some machines, an auto-protocol machine leaving out IPv4 and/or ARP from its list; extra unused networks) are run with generate_and_run_sim on the paused clock: the result must be Some(Exited), and the process-wide H4 hook must have seen every described message as a UDP frame to the described address and port. Non-trivial = (a) tree with >=2 networks, >=3 machines and >=1 argument value containing a space or '='; (b) every run; distinct by text hash.",
+    rule: "(a) generated description trees (1..3 top-level Networks sections with 1..4 networks of 1..4 ip/range/arbitrary-key entries, 1..6 machines with any options, 1..3 networks, 0..4 protocols and 1..4 applications carrying 0..6 arguments whose values are arbitrary printable ASCII without quote, backslash, closing bracket and 4-space runs, empty values included) are printed by the harness's own renderer in tab, 4-space and CRLF variants with the three machine sections in any order and optional Template lines, parsed by core_parser and compared with the tree; structurally broken renderings (one line indented one level too deep or too shallow, unknown section keyword, a required machine section missing, duplicate network id, duplicate argument) must yield Err with a non-empty message, never Ok and never a panic. (b) valid scenario descriptions (senders with counts 1..5 -> capture by count or by message, sender -> forward -> capture, ping_pong pair, several captures sharing a factory; receivers addressed by machine name, by address or a mix of both; the port written in decimal or hexadecimal independently on the sending and the receiving side; the spare network attached per machine; optional ARP protocol; auto-protocol on no, every or some machines, an auto-protocol machine leaving out IPv4 and/or ARP from its list; extra unused networks) are run with generate_and_run_sim on the paused clock: the result must be Some(Exited), and the process-wide H4 hook must have seen every described message as a UDP frame to the described address and port. Non-trivial = (a) tree with >=2 networks, >=3 machines and >=1 argument value containing a space or '='; (b) every run; distinct by text hash.",
     assumptions: &[
         "well-formed argument values exclude ' \\ ] CR and runs of four spaces: the grammar cannot carry them (lexical 4-space->tab and CR removal happen before tokenising); they are used in C14 only",
         "captures are generated with counts/messages equal to what the described senders send, so the normal exit status implies they saw it; the frame log is checked independently",
@@ -336,11 +336,20 @@ fn gen_valid(rng: &mut impl Rng) -> (String, Expect, Value) {
     let auto_mode = *rng.pick(&[0u8, 0, 1, 2, 2]);
     let arp = rng.chance(1, 3) || auto_mode != 0;
     let auto_name = match auto_mode { 0 => "none", 1 => "all machines", _ => "some machines" };
-    let by_name = rng.chance(1, 2);
+    // receivers addressed by name, by address, or differently from one reference to the next
+    let by_name_mode = rng.gen_range(0..3u8);
     let extra_net = rng.chance(1, 2);
-    let port_hex = rng.chance(1, 2);
-    let port: u16 = rng.gen_range(1..=65535);
-    let port_s = if port_hex { format!("0x{port:x}") } else { format!("{port}") };
+    // the same port written in decimal or hexadecimal, independently on the sending and the receiving side
+    let port_mode = rng.gen_range(0..4u8);
+    let port: u16 = if rng.chance(1, 4) { *rng.pick(&[1u16, 9, 10, 255, 256, 0x7fff, 0x8000, 65534, 65535]) } else { rng.gen_range(1..=65535) };
+    let by_name_name = match by_name_mode { 0 => "never", 1 => "always", _ => "per reference" };
+    let port_s = if port_mode & 1 == 1 { format!("0x{port:x}") } else { format!("{port}") };
+    let port_r = if port_mode & 2 == 2 { format!("0x{port:x}") } else { format!("{port}") };
+    let by_name = |rng: &mut dyn rand::RngCore| match by_name_mode {
+        0 => false,
+        1 => true,
+        _ => rng.gen::<bool>(),
+    };
     // first octet outside everything IpGenerator::block_reserved_ips treats as reserved
     let b = rng.gen_range(11..=99u8);
     let a3 = rng.gen_range(1..=200u8);
@@ -361,7 +370,7 @@ fn gen_valid(rng: &mut impl Rng) -> (String, Expect, Value) {
         }
         v.join("\n")
     };
-    let nets_of = |first: &str| if extra_net { format!("\t\t\t[Network id='{first}']\n\t\t\t[Network id='spare']") } else { format!("\t\t\t[Network id='{first}']") };
+    let nets_of = |first: &str, rng: &mut dyn rand::RngCore| if extra_net && rng.gen::<bool>() { format!("\t\t\t[Network id='{first}']\n\t\t\t[Network id='spare']") } else { format!("\t\t\t[Network id='{first}']") };
     let mut text = String::new();
     text.push_str("[Networks]\n\t[Network id='main']\n");
     text.push_str(&format!("\t\t[IP range='{b}.{a3}.7.10-30']\n"));
@@ -377,7 +386,7 @@ fn gen_valid(rng: &mut impl Rng) -> (String, Expect, Value) {
             _ => rng.gen::<bool>(),
         };
         let mopts = if auto_m { " auto-protocol='true'" } else { "" };
-        format!("\t[Machine name='{name}'{opts}{mopts}]\n\t\t[Networks]\n{}\n\t\t[Protocols]\n{}\n\t\t[Applications]\n{}\n", nets_of("main"), protos(auto_m, rng), apps)
+        format!("\t[Machine name='{name}'{opts}{mopts}]\n\t\t[Networks]\n{}\n\t\t[Protocols]\n{}\n\t\t[Applications]\n{}\n", nets_of("main", rng), protos(auto_m, rng), apps)
     };
     let desc;
     match template {
@@ -388,29 +397,29 @@ fn gen_valid(rng: &mut impl Rng) -> (String, Expect, Value) {
             for g in 0..groups {
                 let count = rng.gen_range(1..=5usize);
                 total += count;
-                let to = if by_name { "cap".to_string() } else { ipn(0) };
+                let to = if by_name(rng) { "cap".to_string() } else { ipn(0) };
                 // count='1' may be written or left out
                 let copt = if count > 1 || rng.gen::<bool>() { format!(" count='{count}'") } else { String::new() };
                 text.push_str(&machine(&format!("snd{g}"), &copt, &format!("\t\t\t[Application name='send_message' message='{msg}' to='{to}' port='{port_s}']"), rng));
             }
-            text.push_str(&machine("cap", "", &format!("\t\t\t[Application name='capture' type='count' ip='{}' port='{port_s}' message_count='{total}']", ipn(0)), rng));
+            text.push_str(&machine("cap", "", &format!("\t\t\t[Application name='capture' type='count' ip='{}' port='{port_r}' message_count='{total}']", ipn(0)), rng));
             expect.frames.push((ipb(0), port, msg.clone().into_bytes(), total));
             desc = json!({"template": "senders->capture(count)", "groups": groups, "total_messages": total});
         }
         1 => {
-            let to = if by_name { "fwd".to_string() } else { ipn(1) };
-            let to2 = if by_name { "cap".to_string() } else { ipn(2) };
+            let to = if by_name(rng) { "fwd".to_string() } else { ipn(1) };
+            let to2 = if by_name(rng) { "cap".to_string() } else { ipn(2) };
             text.push_str(&machine("snd", "", &format!("\t\t\t[Application name='send_message' message='{msg}' to='{to}' port='{port_s}']"), rng));
-            text.push_str(&machine("fwd", "", &format!("\t\t\t[Application name='forward' ip='{}' to='{to2}' local_port='{port_s}' remote_port='{port_s}']", ipn(1)), rng));
-            text.push_str(&machine("cap", "", &format!("\t\t\t[Application name='capture' type='message' ip='{}' port='{port_s}' message='{msg}']", ipn(2)), rng));
+            text.push_str(&machine("fwd", "", &format!("\t\t\t[Application name='forward' ip='{}' to='{to2}' local_port='{port_r}' remote_port='{port_s}']", ipn(1)), rng));
+            text.push_str(&machine("cap", "", &format!("\t\t\t[Application name='capture' type='message' ip='{}' port='{port_r}' message='{msg}']", ipn(2)), rng));
             expect.frames.push((ipb(1), port, msg.clone().into_bytes(), 1));
             expect.frames.push((ipb(2), port, msg.clone().into_bytes(), 1));
             desc = json!({"template": "sender->forward->capture(message)"});
         }
         2 => {
-            let (to1, to2) = if by_name { ("pong".to_string(), "ping".to_string()) } else { (ipn(4), ipn(3)) };
-            text.push_str(&machine("ping", "", &format!("\t\t\t[Application name='ping_pong' starter='true' ip='{}' to='{to1}' local_port='{port_s}' remote_port='{port_s}']", ipn(3)), rng));
-            text.push_str(&machine("pong", "", &format!("\t\t\t[Application name='ping_pong' starter='false' ip='{}' to='{to2}' local_port='{port_s}' remote_port='{port_s}']", ipn(4)), rng));
+            let (to1, to2) = if by_name(rng) { ("pong".to_string(), "ping".to_string()) } else { (ipn(4), ipn(3)) };
+            text.push_str(&machine("ping", "", &format!("\t\t\t[Application name='ping_pong' starter='true' ip='{}' to='{to1}' local_port='{port_r}' remote_port='{port_s}']", ipn(3)), rng));
+            text.push_str(&machine("pong", "", &format!("\t\t\t[Application name='ping_pong' starter='false' ip='{}' to='{to2}' local_port='{port_r}' remote_port='{port_s}']", ipn(4)), rng));
             expect.frames.push((ipb(4), port, vec![255], 1));
             expect.frames.push((ipb(3), port, vec![254], 1));
             expect.frames.push((ipb(3), port, vec![2], 1));
@@ -420,11 +429,11 @@ fn gen_valid(rng: &mut impl Rng) -> (String, Expect, Value) {
             // two captures sharing a factory, each with its own senders
             let c1 = rng.gen_range(1..=4usize);
             let c2 = rng.gen_range(1..=4usize);
-            let (t1, t2) = if by_name { ("capA".to_string(), "capB".to_string()) } else { (ipn(5), ipn(6)) };
+            let (t1, t2) = if by_name(rng) { ("capA".to_string(), "capB".to_string()) } else { (ipn(5), ipn(6)) };
             text.push_str(&machine("sA", &format!(" count='{c1}'"), &format!("\t\t\t[Application name='send_message' message='{msg}' to='{t1}' port='{port_s}']"), rng));
             text.push_str(&machine("sB", &format!(" count='{c2}'"), &format!("\t\t\t[Application name='send_message' message='{msg}' to='{t2}' port='{port_s}']"), rng));
-            text.push_str(&machine("capA", "", &format!("\t\t\t[Application name='capture' type='count' ip='{}' factory='f1' port='{port_s}' message_count='{c1}']", ipn(5)), rng));
-            text.push_str(&machine("capB", "", &format!("\t\t\t[Application name='capture' type='count' ip='{}' factory='f1' port='{port_s}' message_count='{c2}']", ipn(6)), rng));
+            text.push_str(&machine("capA", "", &format!("\t\t\t[Application name='capture' type='count' ip='{}' factory='f1' port='{port_r}' message_count='{c1}']", ipn(5)), rng));
+            text.push_str(&machine("capB", "", &format!("\t\t\t[Application name='capture' type='count' ip='{}' factory='f1' port='{port_r}' message_count='{c2}']", ipn(6)), rng));
             expect.frames.push((ipb(5), port, msg.clone().into_bytes(), c1));
             expect.frames.push((ipb(6), port, msg.clone().into_bytes(), c2));
             desc = json!({"template": "two captures sharing a factory", "counts": [c1, c2]});
@@ -437,7 +446,7 @@ fn gen_valid(rng: &mut impl Rng) -> (String, Expect, Value) {
         1 => text.replace('\t', "    "),
         _ => text.replace('\n', "\r\n"),
     };
-    (text, expect, json!({"what": desc, "arp": arp, "auto_protocol": auto_name, "by_name": by_name, "extra_network": extra_net, "port": port_s, "style": style_name}))
+    (text, expect, json!({"what": desc, "arp": arp, "auto_protocol": auto_name, "by_name": by_name_name, "extra_network": extra_net, "port": format!("{port_s} / {port_r}"), "style": style_name}))
 }
 
 fn run_case(d: &mut Delta, rng: &mut rand::rngs::SmallRng, sample: bool) {
